@@ -73,6 +73,8 @@ def _sql_value(v: dict) -> tuple[str, object]:
 def _value_class(v: dict) -> str | None:
     if v["k"] == "str":
         s = v["v"]
+        if __import__("re").search(r"\$\w", s):
+            return "dollar"
         if "\\" in s:
             return "backslash"
         if "$" in s:
@@ -196,6 +198,10 @@ def run_vars(case, ctx: Ctx) -> None:
                 vclasses = sorted({_value_class(m[n.upper()][0]) or m[n.upper()][0]["k"] for n in names})
                 pref = any(k != n.upper() and (k.startswith(n.upper())) for n in names for k in m)
                 disc = f"prefix-live={'y' if pref else 'n'}|values={'+'.join(vclasses)}"
+                pct = form == "param" and any(m[n.upper()][0]["k"] == "str" and "%" in m[n.upper()][0]["v"] for n in names)
+                if pct and (not o.ok or len(o.rows) != 1 or not all(same_value(g, w) for g, w in zip(o.rows[0], want_row))):
+                    ctx.fail("C15|use|percent-in-value-beside-bound-parameters", f"{sql} {params!r} with {{{', '.join(f'{k}={v[1]!r}' for k, v in sorted(m.items()))}}}: {o}")
+                    continue
                 if not o.ok:
                     ctx.fail(f"C15|use|raises|{o.etype}|{disc}", f"{sql} with {{{', '.join(f'{k}={v[1]!r}' for k, v in sorted(m.items()))}}}: {o}")
                     if any(_value_class(v[0]) == "backslash" for v in m.values()):
